@@ -17,13 +17,15 @@
       hang           a Close (or a call parked behind the held write) did not return after the release;
       unbind_hang    an Unbind did not return after the release;
       panic;
-      alive          goroutines started by the interceptor were alive when the first Close returned (pprof labels)]
+      alive          goroutines started by the interceptor were alive when the first Close returned (pprof labels);
+      not_closed     chains: a member did not receive exactly one Close per Chain.Close call;
+      err_lost       chains: Chain.Close did not return the error of the member whose Close failed]
    c11g_mismatches:    the extended LTS (Model/LifecycleX.v, record `plain (cfg_of iid)`) run under the same
                        held schedule predicts a different observation;
    c11g_spec_failures: the property text on the implementation's observation, code = 100 * iid + shape,
                        shapes 11 Close returned while a goroutine it started was writing, 12 the second Close
                        did, 13 write completed after a Close returned, 14 hang, 15 panic, 16 goroutine alive
-                       when Close returned.
+                       when Close returned, 17 chain member not closed once per Chain.Close, 18 member's error lost.
    c11_open_strand_failures (set c11): shape 10 - a packet Read/Write (or an incoming RTCP read) parked until
                        a later call released it although BindRTCPWriter had been called and no Close had:
                        "a caller is stranded on an interceptor that is not closed" (the loop stopped consuming
@@ -66,7 +68,7 @@ Definition gate_model_h (holdable : bool) (xc : xcfg) (mode : Z) : list Z :=
   let alive := (e1 || e2) && negb (match loops s4 with [] => true | _ => false end) in
   let final := settle (x_base xc) s4 in
   [b2z entered; b2z e1; b2z e2; b2z (negb (Nat.eqb (late_close final) 0));
-   b2z (is_blocked final 30 || is_blocked final 31); 0; b2z (panicked final); b2z alive].
+   b2z (is_blocked final 30 || is_blocked final 31); 0; b2z (panicked final); b2z alive; 0; 0].
 
 Definition gate_model := gate_model_h true.
 
@@ -81,28 +83,32 @@ Definition c11g_mismatches (cases : list c11g_case) : list nat :=
 (* ---- specification oracle for a gated run ---- *)
 Definition gate_codes (obs : list Z) : list nat :=
   match obs with
-  | [entered; e1; e2; late; hang; uhang; pan; alive] =>
+  | [entered; e1; e2; late; hang; uhang; pan; alive; notclosed; errlost] =>
       (if e1 =? 0 then [] else [11%nat]) ++ (if e2 =? 0 then [] else [12%nat]) ++
       (if late =? 0 then [] else [13%nat]) ++ (if (hang =? 0) && (uhang =? 0) then [] else [14%nat]) ++
-      (if pan =? 0 then [] else [15%nat]) ++ (if alive =? 0 then [] else [16%nat])
+      (if pan =? 0 then [] else [15%nat]) ++ (if alive =? 0 then [] else [16%nat]) ++
+      (if notclosed =? 0 then [] else [17%nat]) ++ (if errlost =? 0 then [] else [18%nat])
   | _ => [19%nat]   (* malformed observation *)
   end.
 
 (* the property text on one gated run: every Close returns only after every goroutine the interceptor
    started has finished (not while one is inside a write, none alive at its return), nothing is written
-   after a Close returned, no call hangs or panics *)
+   after a Close returned, no call hangs or panics; chains: every member received exactly one Close per
+   Chain.Close call and the error of a member whose Close failed came back *)
 Definition gate_ok (obs : list Z) : Prop :=
-  exists entered e1 e2 late hang uhang pan alive, obs = [entered; e1; e2; late; hang; uhang; pan; alive] /\
-    e1 = 0 /\ e2 = 0 /\ late = 0 /\ hang = 0 /\ uhang = 0 /\ pan = 0 /\ alive = 0.
+  exists entered e1 e2 late hang uhang pan alive notclosed errlost,
+    obs = [entered; e1; e2; late; hang; uhang; pan; alive; notclosed; errlost] /\
+    e1 = 0 /\ e2 = 0 /\ late = 0 /\ hang = 0 /\ uhang = 0 /\ pan = 0 /\ alive = 0 /\ notclosed = 0 /\ errlost = 0.
 
 Lemma gate_codes_nil_iff obs : gate_codes obs = [] <-> gate_ok obs.
 Proof.
   unfold gate_codes, gate_ok. split.
-  - destruct obs as [|a [|b [|c [|d [|e [|f [|g [|h [|]]]]]]]]]; try discriminate.
-    intros H. exists a, b, c, d, e, f, g, h. split; [reflexivity|].
+  - destruct obs as [|a [|b [|c [|d [|e [|f [|g [|h [|i [|j [|]]]]]]]]]]]; try discriminate.
+    intros H. exists a, b, c, d, e, f, g, h, i, j. split; [reflexivity|].
     destruct (Z.eqb_spec b 0), (Z.eqb_spec c 0), (Z.eqb_spec d 0), (Z.eqb_spec e 0), (Z.eqb_spec f 0),
-      (Z.eqb_spec g 0), (Z.eqb_spec h 0); cbn in H; try discriminate. repeat split; assumption.
-  - intros (a & b & c & d & e & f & g & h & -> & -> & -> & -> & -> & -> & -> & ->). reflexivity.
+      (Z.eqb_spec g 0), (Z.eqb_spec h 0), (Z.eqb_spec i 0), (Z.eqb_spec j 0); cbn in H; try discriminate.
+    repeat split; assumption.
+  - intros (a & b & c & d & e & f & g & h & i & j & -> & -> & -> & -> & -> & -> & -> & -> & -> & ->). reflexivity.
 Qed.
 
 Fixpoint gspec_from (i : nat) (cases : list c11g_case) : list (nat * nat) :=
@@ -160,7 +166,41 @@ Definition c11_open_strand_failures (cases : list c11_case) : list (nat * nat) :
    outcome = the worst outcome, aux bits = OR (something written after Close by ANY member, an emission /
    a kept entry about an unbound SSRC in ANY member, ANY member's state not fresh).
    case = (chain id >= 14, member ids, mask, ops, observations, leaked goroutines); codes 100 * id + shape *)
-Definition c11c_case := (Z * list Z * Z * list op * list (Z * Z) * Z)%type.
+(* member id 100 = an instrumented member (pkg/mock) that does nothing except that its Close returns an
+   error; cobs = [Chain.Close calls that returned; fewest / most Close calls a member received; 1 iff every
+   Chain.Close returned exactly the members' errors].  chain.go Close closes EVERY member, whatever the
+   earlier ones returned, so the expectation is [n; n; n; 1], n = number of Close calls of the script;
+   shapes 21 a member missed a Close, 22 a member was closed more often than the chain, 23 error lost *)
+Definition c11c_case := (Z * list Z * Z * list op * list (Z * Z) * Z * list Z)%type.
+
+Definition mock_close_fails : Z := 100.
+Definition real_members (members : list Z) : list Z := filter (fun m => negb (m =? mock_close_fails)) members.
+
+Definition n_closes (ops : list op) : Z := Z.of_nat (length (filter is_close (ops ++ [OClose]))).
+
+Definition chain_close_codes (ops : list op) (cobs : list Z) : list nat :=
+  match cobs with
+  | [n; lo; hi; errok] =>
+      (if (lo <? n) || negb (n =? n_closes ops) then [21%nat] else []) ++ (if n <? hi then [22%nat] else []) ++
+      (if errok =? 1 then [] else [23%nat])
+  | _ => [29%nat]
+  end.
+
+Definition chain_close_ok (ops : list op) (cobs : list Z) : Prop :=
+  exists n lo hi, cobs = [n; lo; hi; 1] /\ n = n_closes ops /\ n <= lo /\ hi <= n.
+
+Lemma chain_close_codes_nil_iff ops cobs : chain_close_codes ops cobs = [] <-> chain_close_ok ops cobs.
+Proof.
+  unfold chain_close_codes, chain_close_ok. split.
+  - destruct cobs as [|n [|lo [|hi [|e [|]]]]]; try discriminate.
+    intros H. apply app_eq_nil in H as [H1 H]. apply app_eq_nil in H as [H2 H3].
+    destruct (Z.ltb_spec lo n), (Z.eqb_spec n (n_closes ops)), (Z.ltb_spec n hi), (Z.eqb_spec e 1);
+      cbn in H1, H2, H3; try discriminate.
+    subst e. exists n, lo, hi. repeat split; auto.
+  - intros (n & lo & hi & -> & E & L1 & L2).
+    destruct (Z.ltb_spec lo n); [lia|]. destruct (Z.eqb_spec n (n_closes ops)); [|contradiction].
+    destruct (Z.ltb_spec n hi); [lia|]. reflexivity.
+Qed.
 
 Definition or_bits (a b : Z) : Z := Z.lor a b.
 
@@ -180,8 +220,9 @@ Definition chain_neutral (members : list Z) (ops : list op) (obs : list (Z * Z))
   if existsb (Z.eqb 7) members then after_close_neutral false (ops ++ [OClose]) obs else obs.
 
 Definition c11c_model_ok (c : c11c_case) : bool :=
-  let '(cid, members, mask, ops, obs, leak) := c in
-  list_eqb pair_eqb (chain_neutral members ops (chain_model_obs members mask ops)) (chain_neutral members ops obs).
+  let '(cid, members, mask, ops, obs, leak, cobs) := c in
+  list_eqb pair_eqb (chain_neutral members ops (chain_model_obs (real_members members) mask ops)) (chain_neutral members ops obs) &&
+  list_eqb Z.eqb [n_closes ops; n_closes ops; n_closes ops; 1] cobs.
 
 Definition c11c_mismatches (cases : list c11c_case) : list nat :=
   find_idx (fun c => negb (c11c_model_ok c)) cases 0.
@@ -192,8 +233,9 @@ Definition c11c_spec_failures (cases : list c11c_case) : list (nat * nat) :=
   (fix go (i : nat) (cases : list c11c_case) : list (nat * nat) :=
      match cases with
      | [] => []
-     | (cid, _, mask, ops, obs, leak) :: tl =>
+     | (cid, _, mask, ops, obs, leak, cobs) :: tl =>
          map (fun k => (i, k)) (case_codes (cid, mask, ops, obs, leak)) ++
+         map (fun k => (i, (100 * Z.to_nat cid + k)%nat)) (chain_close_codes ops cobs) ++
          map (fun k => (i, (100 * Z.to_nat cid + k)%nat)) (nodup Nat.eq_dec (strand_codes false false (ops ++ [OClose]) obs)) ++
          go (S i) tl
      end) 0%nat cases.
